@@ -35,7 +35,7 @@ BindExact == \A i \in DOMAIN Tmpls : \A a \in ArgLists : Len(a) >= MaxPh(Tmpls[i
 DSNs == [scheme : {"file", "other"}, preload : {"absent", "true", "false", "junk"}, lrucache : {"absent", "true", "false", "junk"},
          size : {"absent", "zero", "num", "junk", "neg"}]
 EmitDSN == (Emit /\ last = ErrRes) =>
-   \A d \in DSNs : PrintT(ToJson([tag |-> "dsn", dsn |-> d, usable |-> DSNUsable(d)]))
+   \A d \in DSNs : PrintT(ToJson([tag |-> "dsn", dsn |-> d, outcome |-> DSNOutcome(d)]))
 PairLT(a, b) == a[1] < b[1]
 RowPairs(r) == SetToSortSeq({<<c, r[c]>> : c \in DOMAIN r}, PairLT)
 EmitAll == (Emit /\ last = ErrRes) =>
